@@ -21,7 +21,8 @@ pub struct EngineB {
 pub static ENGINE_C13: EngineB = EngineB { faults: false };
 pub static ENGINE_C14: EngineB = EngineB { faults: true };
 
-const SHORTS: &[&str] = &["a", "b", "c", "d"];
+// library names are identifiers: punctuation is as good as letters, in the name and in the file name
+const SHORTS: &[&str] = &["a", "b", "c?", "d->e"];
 const HEALTH_KINDS: &[&str] = &[
     "healthy",
     "missing",
@@ -122,11 +123,23 @@ pub fn lib_source(spec: &Value) -> String {
         exports.push(format!("(rename hi-{} lo-{})", s, s));
         exports.push(format!("(rename lo-{} hi-{})", s, s));
     }
+    // a library that defines, and exports, a name it also imported: what it exports is its own
+    // definition wherever the export declaration stands; and a name defined early and defined
+    // again at the end of the body is exported with its final value
+    if spec["override"].as_bool().unwrap_or(false) {
+        body.push(format!("(define (abs x) (+ x {}))", 50 + spec["k"].as_i64().unwrap_or(1)));
+        exports.push(format!("(rename abs own-abs-{})", s));
+        body.insert(0, "(define stage 1)".to_string());
+        exports.push(format!("(rename stage stage-{})", s));
+    }
     // an exported constant, and (optionally) a re-export of a dependency's procedure
     exports.push(format!("(rename k const-{})", s));
     body.push(format!("(define k {})", 700 + spec["k"].as_i64().unwrap_or(1)));
     if let Some(j) = reexport_target(spec) {
         exports.push(format!("(rename {} bump-{}-from-{})", dep_next_name(spec, &j), j, s));
+    }
+    if spec["override"].as_bool().unwrap_or(false) {
+        body.push("(define stage 2)".to_string());
     }
     if spec["health"].as_str() == Some("faulting-body") {
         let fault = spec["fault"].as_str().unwrap_or("(car 5)");
@@ -208,9 +221,16 @@ fn lib_file_bytes(spec: &Value) -> Option<Vec<u8>> {
                 3 => format!("(define-library (lib other-{s})\n (import (scheme base))\n (export look-{s})\n (begin (define (look-{s}) 'decoy)))\n", s = s),
                 4 => format!("; helpers kept next to the library\n(define look-{s} 'decoy)\n(display \"never evaluated\")\n", s = s),
                 5 => format!("(define-library (other {s})\n (import (scheme base))\n (export look-{s})\n (begin (define (look-{s}) 'decoy)))\n", s = s),
+                // a draft of ANOTHER library of this world (or of one that exists nowhere) kept in
+                // this file: it is not what an import of that library means
+                6 | 7 => decoy_source(spec["layout_other"].as_str().unwrap_or("zz")),
                 _ => String::new(),
             };
-            Some(format!("{}{}", before, text).into_bytes())
+            if spec["layout"].as_u64() == Some(7) {
+                Some(format!("{}{}", text, before).into_bytes())
+            } else {
+                Some(format!("{}{}", before, text).into_bytes())
+            }
         }
         "missing" | "directory" | "dangling-symlink" => None,
         "empty" => Some(vec![]),
@@ -467,6 +487,8 @@ const FAULT_BODIES: &[(&str, &str)] = &[
 
 fn gen_lib(rng: &mut Rng, short: &str, imports: Vec<String>, health: &str, allow_registered: bool) -> Value {
     let (fault, fault_kind) = *rng.pick(FAULT_BODIES);
+    let others: Vec<&str> = SHORTS.iter().copied().chain(["zz"]).filter(|t| *t != short).collect();
+    let layout_other = *rng.pick(&others);
     let delivery = if allow_registered && matches!(health, "healthy" | "faulting-body" | "missing") && rng.chance(1, 3) {
         "registered"
     } else {
@@ -489,8 +511,10 @@ fn gen_lib(rng: &mut Rng, short: &str, imports: Vec<String>, health: &str, allow
         "fault_kind": fault_kind,
         "cut": rng.below(10_000),
         "variant": rng.below(3),
-        "layout": rng.below(6),
+        "layout": rng.below(8),
+        "layout_other": layout_other,
         "decl_shape": rng.below(6),
+        "override": rng.chance(1, 3),
     })
 }
 
@@ -533,6 +557,10 @@ fn external_names(spec: &Value) -> Vec<(String, String)> {
     v.push((format!("use-twice-{}", s), "use-helper".to_string()));
     if spec["spoiler"].as_bool().unwrap_or(false) {
         v.push((format!("spoil-{}!", s), "spoil".to_string()));
+    }
+    if spec["override"].as_bool().unwrap_or(false) {
+        v.push((format!("own-abs-{}", s), "use-helper".to_string()));
+        v.push((format!("stage-{}", s), "const".to_string()));
     }
     if spec["collide"].as_bool().unwrap_or(false) {
         v.push((format!("use-aux-{}", s), "use-helper".to_string()));
